@@ -39,12 +39,14 @@ def _job(job):
             orig = rw._compute_metric_and_weights
 
             def oracle(beta):
-                w, ess, metric = orig(beta)
+                r0 = orig(beta)
+                w, ess, metric = r0
                 if beta == 1.0:
                     ess = 0.0
                     if rw.volume_variation is None:
                         metric = 0.0
-                return w, ess, metric
+                # hand back the same KIND of object the library's own method returns (a plain tuple, or a named tuple)
+                return type(r0)(w, ess, metric) if (hasattr(r0, "_fields") and len(r0) == 3) else (w, ess, metric)
 
             rw._compute_metric_and_weights = oracle
             rec.attach(sampler)
